@@ -907,7 +907,7 @@ impl<'a> Checker<'a>
                     let ev = self.peek()?.cloned();
                     let cause = match p.kind { PKind::Removal(c) => Cause::Rem(c, p.ent), PKind::Despawn => Cause::Despawn(p.ent) };
                     // raised inside a tree: "may run at any later system-command boundary of the same tree" (C09) is violated too
-                    if p.in_tree { fail!(self, "C08", "polled-missing", &["C01", "C02", "C09"], "no run of instance {inst} for {cause:?} by the end of the tree that caused it; next observed: {ev:?}"); }
+                    if p.in_tree { fail!(self, "C08", "polled-missing", &["C01", "C02", "C09", "C11"], "no run of instance {inst} for {cause:?} by the end of the tree that caused it (something is still waiting to run when the outermost flush returns); next observed: {ev:?}"); }
                     fail!(self, "C08", "polled-missing", &["C01", "C02"], "no run of instance {inst} for {cause:?} by its deadline; next observed: {ev:?}");
                 }
                 if let Some(r) = reg { self.drop_handle(*r); self.stats.skipped_dead += 1; }
